@@ -462,9 +462,15 @@ func (vc *VC) applyContractX(fr *Frame, spec *FuncSpec, name string, sig *types.
 			env.vars[l.Name] = v
 		}
 	}
-	for i, rq := range spec.Requires {
-		if t, ok := vc.evalBool(rq, env); ok {
-			vc.oblige("call-pre", name+":"+vc.clauseLabel("requires", rq, i), t, pos, "precondition of "+name+": "+rq.Src)
+	for i, rq0 := range spec.Requires {
+		for _, rq := range conjuncts(rq0) {
+			lbl := vc.clauseLabel("requires", rq, i)
+			if rq != rq0 && rq0.Label == "" {
+				lbl = fmt.Sprintf("requires:%d.%s", i+1, rq.Label)
+			}
+			if t, ok := vc.evalBool(rq, env); ok {
+				vc.oblige("call-pre", name+":"+lbl, t, pos, "precondition of "+name+": "+rq.Src)
+			}
 		}
 	}
 	for _, sp := range spec.Spawns {
